@@ -21,14 +21,16 @@ DESIGN_REF = "DESIGN.md §4 C09"
 RULE = (
     "pairs (old tree, new tree, recursive flag) of virtual trees with one path per inode; exhaustive part: every "
     "old tree with <= 3 entries over names {a,b}, depth <= 2, canonical identities x every new tree of that universe "
-    "with every injective inode assignment from a pool of 4 and every mtime/size variation; random part: Hypothesis "
-    "trees over {a,b,c}, depth <= 3, <= 12 entries, identities of the new tree drawn from old identities or fresh. "
+    "with every injective inode assignment from a pool of 4 and every mtime/size variation, each once with distinct "
+    "inode numbers on one device and once with the root's inode number on distinct devices; random part: Hypothesis "
+    "trees over {a,b,c}, depth <= 3, <= 12 entries, identities of the new tree drawn from old identities or fresh, one "
+    "fresh identity in five re-using an inode number present on another device (tree spanning mount points). "
     "non-trivial = reference diff has >= 2 elementary changes, or a listed corner (swap of two names, inode reuse "
     "under the same name, move+modify, kind change in place, replace); distinct = digest of the normalized pair"
 )
 ASSUMPTIONS = [
     "snapshots are built by the real DirectorySnapshot over vlib.vfs.VFS (stat/listdir injection, the PollingObserverVFS interface)",
-    "identity of an entry = (st_ino, st_dev); inode numbers are unique inside one tree (the statement's precondition, by construction)",
+    "identity of an entry = (st_ino, st_dev), unique inside one tree (the statement's precondition, by construction); the ignore_device laws are judged only where an inode number names one identity",
     "when one identity has different kinds in the two snapshots either file/dir list is accepted for moved/modified",
 ]
 
@@ -177,8 +179,10 @@ def check_pair(t1, t2, recursive):
         di = DirectorySnapshotDiff(s1, s2x, ignore_device=True)
         # compare with the diff of the pair in which devices were never touched, for the entries whose
         # identity does not depend on the device, i.e. pairs where t1/t2 agree on dev wherever ino agrees
-        same_dev = all(e1[oid_r][2] == e2[r][2] for r in e2 for oid_r in [r] if r in e1 and e1[r][1] == e2[r][1])
-        if same_dev:
+        # ... and only where an inode NUMBER names one identity over both trees (with ignore_device the number alone is
+        # the identity, so a tree spanning devices with equal numbers is outside the statement's precondition)
+        ids = {(v[1], v[2]) for v in e1.values()} | {(v[1], v[2]) for v in e2.values()}
+        if len({i for i, _ in ids}) == len(ids):
             if {k: set(v) for k, v in _lists(di).items()} != {k: set(v) for k, v in L.items()}:
                 raise Violation(
                     f"ignore_device: remapping every device id of the new snapshot changed the diff: {_lists(di)} vs {L}",
@@ -186,7 +190,7 @@ def check_pair(t1, t2, recursive):
                 )
     t1x = {r: (v[0], v[1], v[2] + 10, v[3], v[4]) for r, v in t1.items()}
     dz = DirectorySnapshotDiff(s1, take(t1x, recursive), ignore_device=True)
-    if any(_lists(dz).values()):
+    if len({v[1] for v in e1.values()}) == len(e1) and any(_lists(dz).values()):
         raise Violation(f"ignore_device: pure device change reported as {_lists(dz)}", "ignore-device")
     return (rc, rd, rm, rmod)
 
@@ -212,6 +216,15 @@ def classify(t1, t2, recursive, ref):
             elif (e1[r][1], e1[r][2]) != (e2[r][1], e2[r][2]):
                 classes.append("corner:replace-or-reuse")
                 corner = True
+    for e in (e1, e2):
+        inos = {}
+        for r, v in e.items():
+            inos.setdefault(v[1], []).append(r)
+        multi = [rs for rs in inos.values() if len(rs) > 1]
+        if multi:
+            classes.append("inode-number-on-two-devices")
+            if any(a != b and (a == "" or b.startswith(a + "/")) for rs in multi for a in rs for b in rs):
+                classes.append("inode-number-of-an-ancestor")
     if any(b in e1 for _, b in rm):
         classes.append("corner:move-onto-existing-name")
         corner = True
@@ -262,18 +275,20 @@ def exhaustive_pairs(shard, nshards, names, depth, max_entries, pool):
         if i % nshards != shard:
             continue
         p1 = sorted(sh1)
-        t1 = {"": ("d", 100, 1, 0, 0)}
-        for j, p in enumerate(p1):
-            t1[p] = (sh1[p], j + 1, 1, 0, 0)
-        for sh2 in shp:
-            p2 = sorted(sh2)
-            for inos in itertools.permutations(pool, len(p2)):
-                for bits in itertools.product(((0, 0), (1, 0), (0, 1)), repeat=len(p2)):
-                    for rootbit in (0, 1):
-                        t2 = {"": ("d", 100, 1, rootbit, 0)}
-                        for p, ino, (m, s) in zip(p2, inos, bits):
-                            t2[p] = (sh2[p], ino, 1, m, s)
-                        yield t1, t2
+        # identity k of the pool is (ino k, dev 1), or - the same trees spanning mount points - (the root's ino, dev 1+k)
+        for ident in ((lambda k: (k, 1)), (lambda k: (100, 1 + k))):
+            t1 = {"": ("d", 100, 1, 0, 0)}
+            for j, p in enumerate(p1):
+                t1[p] = (sh1[p], *ident(j + 1), 0, 0)
+            for sh2 in shp:
+                p2 = sorted(sh2)
+                for inos in itertools.permutations(pool, len(p2)):
+                    for bits in itertools.product(((0, 0), (1, 0), (0, 1)), repeat=len(p2)):
+                        for rootbit in (0, 1):
+                            t2 = {"": ("d", 100, 1, rootbit, 0)}
+                            for p, ino, (m, s) in zip(p2, inos, bits):
+                                t2[p] = (sh2[p], *ident(ino), m, s)
+                            yield t1, t2
 
 
 from vlib.treegen import pairs  # noqa: E402
